@@ -103,13 +103,13 @@ class Gen:
                 rows.reverse()  # a slice with a negative step is still a 2-D slice of `wells`
             if 0.15 <= o < 0.36:
                 cols.reverse()
-            arr = [[well_id(rr, cc) for cc in cols] for rr in rows]
+            arr = [[geo.well_id(rr, cc) for cc in cols] for rr in rows]
             flat = [arr[i][j] for j in range(len(cols)) for i in range(len(rows))]
             return arr, flat, {}
         if r < 0.45:
             # one whole column, ascending rows (the typical call)
             c = rng.randrange(geo.cols)
-            flat = [well_id(rr, c) for rr in range(min(geo.idrows, n_max if n_max >= 8 else n_max))]
+            flat = [geo.well_id(rr, c) for rr in range(min(geo.idrows, n_max if n_max >= 8 else n_max))]
             return list(flat), flat, {"wnp": rng.random() < 0.3}
         n = rng.randint(1, max(1, min(n_max, 2 * len(ids))))
         if rng.random() < 0.1:
@@ -342,7 +342,7 @@ class Gen:
             nr, nc = len(swarg), len(swarg[0])
             r0 = rng.randint(0, gd.idrows - nr)
             c0 = rng.randint(0, gd.cols - nc)
-            dwarg = [[well_id(r0 + rr, c0 + cc) for cc in range(nc)] for rr in range(nr)]
+            dwarg = [[gd.well_id(r0 + rr, c0 + cc) for cc in range(nc)] for rr in range(nr)]
             dflat = [dwarg[rr][cc] for cc in range(nc) for rr in range(nr)]
         else:
             if n == 1 and rng.random() < 0.3:
@@ -453,7 +453,7 @@ class Gen:
                     if rng.random() < 0.3:
                         pairs.reverse()  # the listing order does not matter: steps are ordered by row
                     op = {"op": "transfer", "src": li, "dst": li,
-                          "sw": [well_id(*p[0]) for p in pairs], "dw": [well_id(*p[1]) for p in pairs],
+                          "sw": [geo.well_id(*p[0]) for p in pairs], "dw": [geo.well_id(*p[1]) for p in pairs],
                           "volumes": enc([float(p[2]) for p in pairs]), "label": rng.choice(LABELS),
                           "intent": f"{intent}@chain"}
                     if rng.random() < 0.7:
@@ -487,7 +487,7 @@ class Gen:
             dflat = [rng.choice(ids) for _ in range(rng.randint(2, 6))]
         elif gd.trough:
             cols = rng.sample(range(gd.cols), rng.randint(1, gd.cols))
-            dflat = [well_id(rng.randrange(gd.idrows), c) for c in cols]
+            dflat = [gd.well_id(rng.randrange(gd.idrows), c) for c in cols]
         else:
             ids = gd.all_ids()
             dflat = rng.sample(ids, rng.randint(1, min(len(ids), rng.choice([2, 4, 8, 12]))))
@@ -497,7 +497,7 @@ class Gen:
             r1 = rng.randint(r0 + 1, min(gd.idrows, r0 + 3))
             c0 = rng.randrange(gd.cols)
             c1 = rng.randint(c0 + 1, min(gd.cols, c0 + 3))
-            dwarg = [[well_id(rr, cc) for cc in range(c0, c1)] for rr in range(r0, r1)]
+            dwarg = [[gd.well_id(rr, cc) for cc in range(c0, c1)] for rr in range(r0, r1)]
             dflat = [dwarg[rr][cc] for cc in range(c1 - c0) for rr in range(r1 - r0)]
         dw = [gd.real(w) for w in dflat]
         n = len(dw)
@@ -550,7 +550,7 @@ class Gen:
         n = rng.randint(1, min(8, geo.idrows))
         rows = sorted(rng.sample(range(geo.idrows), n))
         tips = sorted(rng.sample(range(1, 9), n))
-        flat = [well_id(r, c) for r in rows]
+        flat = [geo.well_id(r, c) for r in rows]
         if not canonical:
             # wells and/or tips in another order than ascending: the EVO still serves ascending wells with
             # ascending tips, so only the *wells* order matters for what each well gets (tips order is legal)
@@ -634,7 +634,7 @@ class Gen:
         op = base
         op["intent"] = "reject.invalid:" + choice
         if choice == "badwell":
-            bad = rng.choice(["Z99", well_id(geo.idrows if geo.idrows < 26 else 25, 0), well_id(0, geo.cols), "A1", "1A", ""])
+            bad = rng.choice(["Z99", well_id(geo.idrows, 0) if geo.idrows < 26 else "Z99", well_id(0, geo.cols), "A1", "1A", ""])
             if op["op"] == "transfer":
                 if rng.random() < 0.5:
                     op["sw"] = bad
